@@ -15,6 +15,7 @@ for c in $commits; do
 done
 echo "== verif merge"
 cd /verif
+git checkout -q -- evidence 2>/dev/null || true
 git fetch -q $W/verif HEAD
 git merge --no-edit FETCH_HEAD || true
 for id in "$@"; do
